@@ -151,7 +151,16 @@ func Pool(fx *Fixtures, keyID string) (map[string]Version, error) {
 
 	dupc, _ := pad(dup)
 
-	for name, c := range map[string][]byte{"X": corrupt, "Y": unsupported, "Z": dupc} {
+	// parses, but the certificate of the key that would sign is not usable for signatures: refused as a
+	// whole - neither the signing key nor the published set may change
+	unusable, err := fx.BuildStore([]Entry{{Key: "p384-b", KID: "ka", Cert: "self-nousage"}, {Key: "p256-b", KID: "kw"}})
+	if err != nil {
+		return nil, err
+	}
+
+	unusablec, _ := pad(unusable)
+
+	for name, c := range map[string][]byte{"X": corrupt, "Y": unsupported, "Z": dupc, "W": unusablec} {
 		pool[name] = Version{Name: name, content: c, Pub: []string{}}
 	}
 
@@ -492,9 +501,9 @@ func planNames(rng *rand.Rand, keyID string, n int) (string, []string) {
 	var valid, invalid []string
 
 	if keyID == "" {
-		valid, invalid = []string{"A", "B", "C", "D", "E", "F"}, []string{"X", "Y", "Z"}
+		valid, invalid = []string{"A", "B", "C", "D", "E", "F"}, []string{"X", "Y", "Z", "W", "W"}
 	} else { // key_id "ka": B has no such key
-		valid, invalid = []string{"A", "C", "D", "E", "F"}, []string{"X", "Y", "Z", "B"}
+		valid, invalid = []string{"A", "C", "D", "E", "F"}, []string{"X", "Y", "Z", "B", "W", "W"}
 	}
 
 	initial := valid[rng.Intn(len(valid))]
@@ -660,7 +669,12 @@ func planOf(env *Env, s Schedule) ([]Version, []int) {
 
 	for _, st := range s.Steps {
 		if st.P == "rl" && st.A == "write" {
-			plan = append(plan, env.Pool[GenVersions[st.V-1]])
+			name := GenVersions[st.V-1]
+			if name == "X" && len(plan)%2 == 0 { // the model's refused content: unparsable or unusable
+				name = "W"
+			}
+
+			plan = append(plan, env.Pool[name])
 			idx = append(idx, len(plan))
 		}
 	}
